@@ -111,3 +111,12 @@ def _typed_info_eager_write(viol, scenario):
     lazy = str(d.get("lazy_result", "")).strip('"')
     return (viol.kind in ("vcfinfo.write.one_fails", "vcfinfo.final_write.differs")
             and eager.startswith("Raised:KeyError") and not lazy.startswith("Raised"))
+
+
+@predicate("int64_min_written_as_minus_two")
+def _int64_min(viol, scenario):
+    """KF-C03-int64-min: ints_to_strings takes np.abs of the column; for the most negative int64 that overflows and the
+    value is written as '-2'.  Only that one value, only in the field the violation names."""
+    d = viol.detail
+    return (viol.oracle in ("canonical", "single_write", "prefix", "composable", "read_back")
+            and str(d.get("expected")) == str(-2 ** 63) and str(d.get("got")) == "-2")
